@@ -137,7 +137,8 @@ fn dumpm(m: HashMap<string, string>) -> int {
 }
 '''
 
-DECLS = '''    let mut s: string = (+ "s" (int_to_string k))
+DECLS = '''    set G []
+    let mut s: string = (+ "s" (int_to_string k))
     let mut a: array<string> = ["p", s]
     let mut b: array<string> = a
     let mut ai: array<int> = [1, 2, k]
@@ -152,6 +153,7 @@ DECLS = '''    let mut s: string = (+ "s" (int_to_string k))
     let mut r: Res = Res.Ok { v: s }
     let mut f: fn(int) -> int = (pick k)
     let mut hm: HashMap<string, string> = (map_new)
+    (map_put hm "k" (+ "k" s))
     let mut ks: array<string> = []
     let mut v: string = "v0"
     let lp: List<P3> = (list_P3_new)
@@ -313,7 +315,7 @@ def t_sequences(tier, ops=None):
     core = [x for x in CORE if x in names]
     seqs = [(x,) for x in names] + list(itertools.product(names, repeat=2))
     if tier == "quick":
-        seqs += list(itertools.product(core[:8], repeat=3))
+        seqs += list(itertools.product(core[:12], repeat=3))
     else:
         seqs += list(itertools.product(core, repeat=3))
     return seqs
@@ -403,20 +405,20 @@ def li_function(name, kind, n):
 
 
 def b_cases(tier):
-    """[(name, function source)] of the boundary matrix"""
+    """[(name, function source, label used in the cause signature)] of the boundary matrix"""
     lens = B_LENGTHS_QUICK if tier == "quick" else B_LENGTHS_THOROUGH
     out = []
     for kind in KINDS:
         for n in lens:
             for op in B_OPS:
-                out.append(("b_%s_%d_%s" % (kind, n, op), b_function("b_%s_%d_%s" % (kind, n, op), kind, n, op)))
+                out.append(("b_%s_%d_%s" % (kind, n, op), b_function("b_%s_%d_%s" % (kind, n, op), kind, n, op), "array<%s> %s" % (KINDS[kind][0], op)))
     llens = [0, 1, 3, 4, 5, 6, 8, 9] if tier == "quick" else list(range(0, 19)) + [32, 33]
     for w in (1, 2, 3, 4):
         for n in llens:
-            out.append(("l_p%d_%d" % (w, n), l_function("l_p%d_%d" % (w, n), w, n)))
+            out.append(("l_p%d_%d" % (w, n), l_function("l_p%d_%d" % (w, n), w, n), "generated List<P%d>" % w))
     for kind in ("int", "string"):
         for n in llens:
-            out.append(("li_%s_%d" % (kind, n), li_function("li_%s_%d" % (kind, n), kind, n)))
+            out.append(("li_%s_%d" % (kind, n), li_function("li_%s_%d" % (kind, n), kind, n), "List<%s>" % kind))
     return out
 
 
@@ -457,7 +459,7 @@ def x_cases(tier):
         body.append('    if (bstr_equals bs b2) { set t (+ t 1) } else {}')
         nm = "x_%d" % k
         k += 1
-        out.append((nm, "fn %s() -> int {\n%s\n    return t\n}\nshadow %s { assert true }\n" % (nm, "\n".join(body), nm)))
+        out.append((nm, "fn %s() -> int {\n%s\n    return t\n}\nshadow %s { assert true }\n" % (nm, "\n".join(body), nm), "string operations"))
     return out
 
 
